@@ -1,17 +1,2 @@
-"""Per-property text for MANIFEST.json (what is claimed, what is trusted, the deciding technique)."""
-COMMON_NOTE = ("Trusted: Lean 4.33.0 kernel, axioms propext/Classical.choice/Quot.sound only (audited on every run); "
-               "the hand model is tied to /repo by the per-run correspondence (real code vs compiled Lean model on the same "
-               "operation sequences, white-box observations) and by definitions regenerated from the Go source; "
-               "Go runtime/stdlib semantics are modelled, not verified.")
-TABLE = {
-    "C04": dict(
-        text=("Theorems in Lean 4 (Ekit/Props/C04.lean): every call on the ArrayList / LinkedList / CopyOnWriteArrayList models "
-              "returns what the abstract sequence returns and leaves equal contents, for every capacity, index, history and every "
-              "runtime growth choice; failing calls leave contents and capacity unchanged; no call panics; len <= cap is invariant. "
-              "The shifting loops of slice.Add/Delete are modelled literally and proved equal to insertIdx/eraseIdx; calCapacity is "
-              "regenerated from the source. The model is an acceptor for traces of the real lists (incl. ConcurrentList wrapper) on every run."),
-        note=COMMON_NOTE + " Slice growth capacity is an oracle constrained only by cap>=len; AsSlice freshness is probed dynamically (aliasing is not in the value-level model).",
-        technique="Lean 4 refinement proof (model refines abstract sequence, induction over histories) + trace-acceptance correspondence against the real lists",
-    ),
-}
+"""Reasons for properties that are not claimed (MANIFEST.not_applicable)."""
 NOT_APPLICABLE = {}
